@@ -35,7 +35,7 @@ ENTRY = dict(
     families=["c02"],
     exhaustive=False,
     multi_seed=True,
-    rule=("family c02, one process instance per case (own OS process): processes with 1..3 start events (start->end; "
+    rule=("scenario `partial`: the start events are fired one by one with StartWith (shapes start->end, start->task->end, and `subfirst`: the first start event leads into an embedded sub-process with a start event of its own), a wait before the last one fires — completion is reported only once every start event of the PROCESS has fired (cease_before_all_starts, wait_true_before_all_starts); family c02, one process instance per case (own OS process): processes with 1..3 start events (start->end; "
           "start->task->end; start->fork->2 tasks->join->end; several starts into a parallel join / an exclusive merge "
           "->task->end) x 8 wait histories (sequential, concurrent, tiny timeout while a task is pending then repeated, "
           "calls spanning the completion) started freely (thorough: also under 3 seeded perturbations of the hook points), "
